@@ -70,7 +70,9 @@ def gen_command(rng, voc):
              'wllist', 'wl list', 'w w w help', 'h', 'l', 'f', 'b', 'm', 'c', 'r', 'q', 'li', 'x', 'listt', 'LIST', 'Help',
              'wl', 'wlx', '', ' ', 'help help', 'help wl', 'help wllist', 'help x', 'help matcher', 'list ~', 'list ~ x', 'list ~ 1 ~ 2',
              'list ~ -1', 'list ~ 99999999999999999999', 'list a ~', 'list ~1', 'connection  ', 'connection all ', 'connection A B',
-             'c all', 'filter', 'breakpoint', 'matcher', 'filter  ', '\tlist\t*', 'list\x0b*', 'list\x0c*', 'list\xa0*']
+             'c all', 'filter', 'breakpoint', 'matcher', 'filter  ', '\tlist\t*', 'list\x0b*', 'list\x0c*', 'list\xa0*',
+             'w ' * 1500 + 'help', 'wl ' * 3000 + 'list', 'w wl ' * 700, 'list ' + '(' * 3000, 'filter ' + '[' * 2000 + ']' * 2000,
+             'matcher ' + 'a,' * 5000 + 'a', 'list ' + '!' * 2000, 'help ' + 'wl' * 2000]
     if r < 0.35:
         return rng.choice(words)
     if r < 0.7:
